@@ -61,6 +61,14 @@ Aligned(m, perm, v, fl, vp, flp) ==
        bad == {i \in 1..m : flp[i] # fl[perm[i]] \/ Abs(vp[i] - v[perm[i]]) > tol}
    IN Cardinality(bad) * 100 <= m \/ Cardinality(bad) <= 1
 
+\* qvality only: T.ref = the PEPs of the third-party routine itself (triqler), from the best to the worst score.  The wrapper
+\* must hand every PSM the value computed for it: the k-th best PSM gets ref[k].  Only judged when the reference gives equal
+\* values to equal scores (otherwise positions inside a tie group are not determined).
+RefAligned(m) ==
+   LET srt == SortSeq([i \in 1..m |-> i], LAMBDA a, b : T.ranks[a] > T.ranks[b])
+       tieEq == \A k \in 1..(m - 1) : T.ranks[srt[k]] = T.ranks[srt[k + 1]] => Abs(T.ref[k] - T.ref[k + 1]) <= Eps
+   IN Len(T.ref) # m \/ Len(T.values) # m \/ ~tieEq \/ \A k \in 1..m : Abs(T.values[srt[k]] - T.ref[k]) <= Eps
+
 \* two calls (original, permuted).  A call that raised fails Completed only: nothing else can be said about it.
 EstClauses ==
    LET m == T.n
@@ -78,6 +86,7 @@ EstClauses ==
        MonotoneP    |-> b[1],
        TieEqual     |-> a[2],
        TieEqualP    |-> b[2],
+       RefAligned   |-> ra \/ T.ref = <<>> \/ RefAligned(m),
        Equivariant  |-> (ra \/ rb \/ ~wf) \/
                         /\ C!OnePerPsm(m, T.values, T.flags) /\ C!OnePerPsm(m, T.values_perm, T.flags_perm)
                         /\ Aligned(m, T.perm, T.values, T.flags, T.values_perm, T.flags_perm)]
